@@ -663,6 +663,7 @@ fn main() {
             let offset: u64 = arg(&args, "--offset").unwrap_or("0").parse().unwrap();
             let samples: u64 = arg(&args, "--samples").unwrap_or("1").parse().unwrap();
             let hash_salt: u64 = arg(&args, "--hash-salt").unwrap_or("0").parse().unwrap();
+            let depth: u32 = arg(&args, "--depth").unwrap_or("0").parse().unwrap();
             let single: bool = args.iter().any(|a| a == "--single-thread");
             let deadline: Option<f64> = arg(&args, "--deadline-s").map(|s| s.parse().unwrap());
             // self-test: execute every run `repeat` times in a row in this process
@@ -679,7 +680,7 @@ fn main() {
                         break;
                     }
                 }
-                let mut wl = workload::generate(seed, i);
+                let mut wl = workload::generate(seed, i, depth);
                 if single {
                     // the hash-seed sweep replays the history single-threaded
                     wl = single_threaded(wl, hash_salt);
